@@ -23,7 +23,7 @@ CHECKS = {
         technique="runtime monitoring: exact visit-sequence oracle (reference sorted DFS with prune predicate from the reference evaluator) + oracle-free metamorphic relation (-depth with/without -prune)",
         level="exploration",
         text="The complete sequence printed by find r -sorted [-depth] EXPR is compared with the reference pre/post-order walk for 8 prune expression shapes and name/path/iname/regex/glob selections on trees whose sibling names separate byte order from locale order; under -depth/-delete the run with -prune replaced by -true must print the same bytes. Quick ~3.5k sequences, thorough ~110k.",
-        note="Prune workload under -P, -L and -H (link loops out of domain); -xdev/-mount over trees with tmpfs mounts inside the sandbox (skipped and noted where mounting is not permitted). Known finding H-symlinked-root-depth-directory-released-late (known_findings.json) is matched by exact signature. Trusts refwalk/refeval.",
+        note="Prune workload under -P, -L and -H (link loops out of domain); -xdev/-mount over trees with tmpfs mounts inside the sandbox (skipped and noted where mounting is not permitted). Known finding H-symlinked-root-depth-directory-released-late (known_findings.json) is matched by exact signature. Trusts refwalk/refeval. Round 8: -prune on a directory that a later action removes, with/without -xdev and -sorted.",
         ref="DESIGN.md section 4 C03"),
     "C04": dict(
         technique="runtime monitoring: invariant checker over the recorder log (argv of every child, in order) of the real xargs binary: conservation, fixed prefix, -n/-L/-s limits, maximality, empty-input and oversize rules",
@@ -53,19 +53,19 @@ CHECKS = {
         technique="runtime monitoring: recorder event log (argv+cwd per child) checked for exactly-once/order/fixed-prefix/one-directory-per-batch invariants against the reference evaluation; strace execve log (E2BIG = refutation); exit status under scripted failures",
         level="exploration",
         text="Small runs: random and hostile trees x 8 expression shapes (after tests, in -o, negated, -quit, two + actions, -depth, -maxdepth) x -exec/-execdir x 1-2 starting points x scripted failing batches / missing command. Big runs: 2000-6000 (quick) / to 40000 (thorough) paths with 100-240-byte names in flat and deep layouts under RLIMIT_STACK 512KiB..unlimited and padded environments, traced with strace, giving up to dozens of batches per run.",
-        note="Starting points spelled without '..' or '/.'; verdict for this kernel's execve accounting. Round 7: working directories of 3.7-5 kB with a relative starting point; mode-000 starting points walked as uid 65534 (skipped and noted where uid 65534 cannot execute the recorder).",
+        note="Starting points spelled without '..' or '/.'; verdict for this kernel's execve accounting. Round 7: working directories of 3.7-5 kB with a relative starting point; mode-000 starting points walked as uid 65534 (skipped and noted where uid 65534 cannot execute the recorder). Round 8: commands that exist but cannot be started (no execute bit, a directory, not an executable format).",
         ref="DESIGN.md section 4 C08"),
     "C09": dict(
         technique="runtime monitoring: recorder argv/cwd per child vs textual substitution model; truth value observed through a following labelled action; find exit status",
         level="exploration",
         text="Hostile file names x argument templates with 0-3 {} per argument (embedded, adjacent, lone braces, empty arguments, arguments that look like find primaries) x -exec/-execdir x 7 placements of the action (plain, after tests, negated, in -o, twice, missing command); the recorder's exit status is a pure function of argv, so the expected truth of every evaluation is computable.",
-        note="'{}' in the command name itself not judged; exit status of a following '{} +' action not judged. Round 7: untidily spelled starting points (r/, r//, r/., r/./sub) for -exec ;, the command as a bare name behind an unexecutable namesake in PATH.",
+        note="'{}' in the command name itself not judged; exit status of a following '{} +' action not judged. Round 7: untidily spelled starting points (r/, r//, r/., r/./sub) for -exec ;, the command as a bare name behind an unexecutable namesake in PATH. Round 8: find's stdout on /dev/full with output pending in front of the action (one run per entry all the same).",
         ref="DESIGN.md section 4 C09"),
     "C10": dict(
         technique="runtime monitoring: strace log of every mutating syscall of find + before/after snapshots of the sandbox and of the directories links point to, vs a model replay of the -depth -print order on a twin copy",
         level="exploration",
         text="Sandboxes with nested directories, links to files and directories inside and outside the starting points, dangling links; state-independent expressions leaving some matched directories non-empty; follow modes -P/-H/-L; 1-2 starting points incl. a symlinked one. Successful removals in the strace log must equal the replayed ones in order, no other mutating syscall may occur, the after-snapshot must equal the twin's, and exit status/diagnostic/truth must reflect failed removals.",
-        note="Tests whose truth depends on earlier deletions (-empty, -links, -newer*) not used; runs as root (mknod for device nodes). Round 7: matched links that point at find's working directory; chains deeper than RLIMIT_NOFILE.",
+        note="Tests whose truth depends on earlier deletions (-empty, -links, -newer*) not used; runs as root (mknod for device nodes). Round 7: matched links that point at find's working directory; chains deeper than RLIMIT_NOFILE. Round 8: -follow written before or after -delete.",
         ref="DESIGN.md section 4 C10"),
     "C11": dict(
         technique="runtime monitoring: (a) ill-formed-by-construction argument vectors observed for exit status, stderr, stdout, child processes (recorder log) and sandbox snapshot; (b) totality fuzzing of the real find_main under catch_unwind with a per-case watchdog (privileges dropped to uid 65534), plus the binary for non-UTF-8 arguments; pattern-bearing vectors replayed under valgrind memcheck (crash = violation, reports advisory)",
@@ -83,19 +83,19 @@ CHECKS = {
         technique="runtime monitoring: differential oracle (Python re.fullmatch on the same regex AST) over executions of the matcher objects built by the real parser (in-process) and of the find binary on a real tree; metamorphic twin with every alternation reversed; generated and deliberately damaged patterns replayed under valgrind memcheck (crash = violation, reports advisory)",
         level="exploration",
         text="Random regex ASTs (literals incl. every metacharacter, '.', bracket sets with ranges and negation, groups, alternation, * + ? and intervals) are rendered into emacs, posix-basic, ed, sed, posix-extended and grep syntax using only the operators each syntax defines, placed under 8 -regextype scoping shapes (plain, default, inside parentheses, after a closed parenthesis, type inside parentheses, two types in one expression, overridden, negated), and applied to paths sampled from the AST and mutated (proper prefixes, extensions, substitutions, case changes). Quick ~24k ASTs / ~1.5M judged (pattern, path) pairs plus ~1000 binary runs.",
-        note="Known finding first-match-shorter-than-path (known_findings.json) is matched by exact mechanism signature; pairs on which Oniguruma gives up (diagnosed on stderr) are out of domain; no back-references, anchors or classes; paths without newline.",
+        note="Known finding first-match-shorter-than-path (known_findings.json) is matched by exact mechanism signature; pairs on which Oniguruma gives up (diagnosed on stderr) are out of domain; no back-references, anchors or classes; paths without newline. Round 8: a quantifier directly followed by '?' in the emacs syntax (240 patterns, whole-path oracle).",
         ref="DESIGN.md section 4 C17"),
     "C13": dict(
         technique="runtime monitoring: stat-record oracle (os.lstat/os.stat/os.readlink per follow rule) over labelled test batches evaluated by the real find (in-process find_main + binary sample) on a sandbox with every file type",
         level="exploration",
         text="Per worker one sandbox with every creatable type (regular, directory, fifo, socket, char/block device), links to each, link chains, dangling links, hard-link groups 1-6, 64 (quick) / 4096 (thorough) permission values, 25 owner/group combinations; 22 starting points so that links of every kind occur at depth 0, 1 and deeper; ~2200 (quick) distinct (mode, test) pairs over -type/-xtype, -perm exact/-/ in octal, 0-octal and symbolic spellings of the same mode, -links/-inum/-uid/-gid N/+N/-N, -user/-group by name and number, -empty, -samefile, -lname/-ilname under -P/-H/-L: ~700k (entry, test, mode) evaluations, of which ~8k are ones where the link's and the target's record give different answers.",
-        note="ELOOP links, X in symbolic modes, -nouser/-nogroup and symbolic links as -samefile reference are not judged; tmpfs; runs as root (mknod/chown).",
+        note="ELOOP links, X in symbolic modes, -nouser/-nogroup and symbolic links as -samefile reference are not judged; tmpfs; runs as root (mknod/chown). Round 8: lead-option lists with several of -P/-H/-L (the last one decides).",
         ref="DESIGN.md section 4 C13"),
     "C14": dict(
         technique="runtime monitoring: oracle-free invariants (the three forms -N/N/+N partition the files; +N/-N monotone in N) plus integer-arithmetic oracle on os.lstat records, over labelled clause triples evaluated in-process with an injected clock",
         level="exploration",
         text="About 150 files per worker: sparse files of size 0,1,2 and k*u-1,k*u,k*u+1 for every unit and k in {1,2,3,1023,1024}, 2^32/2^33/2^40/2^62 (+-1), 2^63-1; hard-link groups; chown'ed files; files with injected ages around day/minute boundaries incl. the future. Operands around every file's rounded value for each of c,w,b,none,k,M,G, 0/1/2 and 2^31..2^64-1; -links/-inum/-uid/-gid; the six time tests (trichotomy and monotonicity, oracle for ages >= 0). Quick ~450 triples x ~150 files.",
-        note="N >= 2^64 not used; negative ages judged for trichotomy and monotonicity only; the mount-point rounds need mount permission (skipped and counted otherwise).",
+        note="N >= 2^64 not used; negative ages judged for trichotomy and monotonicity only; the mount-point rounds need mount permission (skipped and counted otherwise). Round 8: FIFO, socket and device-node entries in the random rounds.",
         ref="DESIGN.md section 4 C14"),
     "C15": dict(
         technique="runtime monitoring: ns-resolution integer oracle on os.lstat records with the clock injected through Dependencies::now(); timestamps set with utimensat, ctime read back and `now` placed relative to it",
@@ -113,19 +113,19 @@ CHECKS = {
         technique="runtime monitoring: per-starting-point reference walk (paths formed textually from the starting point as spelled) compared with the -print0 output, stderr and exit status of the real binary; operands vs -files0-from equivalence as an oracle-free relation",
         level="exploration",
         text="Lists of 0-5 starting points over 42 spellings (d ./d d/ d// d/. x/../d absolute .//d ../a . ./ .. ../, links, files, dangling links, names with blanks, multi-byte names, a lone '-', missing names, duplicates, nested ones) given as operands, as no operand, and as NUL-separated lists from a file and from stdin (with/without final NUL, with empty names, with names starting with '-', '!' '(' or containing a newline). -sorted runs are compared as exact sequences, the others as per-starting-point multisets in the order given; equivalent operand/-files0-from pairs must give identical output and exit status.",
-        note="Exit status after an empty -files0-from name is not judged (statement: diagnosed and skipped); valid UTF-8 names. Round 7: -files0-from lists of 1-3 MiB (thorough: up to 16 MiB) from a file and from stdin.",
+        note="Exit status after an empty -files0-from name is not judged (statement: diagnosed and skipped); valid UTF-8 names. Round 7: -files0-from lists of 1-3 MiB (thorough: up to 16 MiB) from a file and from stdin. Round 8: runs with an unusable starting point repeated with -quit after the action.",
         ref="DESIGN.md section 4 C18"),
     "C19": dict(
         technique="runtime monitoring: scripted recorder outcomes, exit status and number of invocations started vs the documented function; bounded-exhaustive over outcome classes",
         level="exploration",
         text="Exhaustive over the four outcome classes (0, 1..125, 255, signal) for every sequence length <= 5 (quick, 1364 sequences) / 7 (thorough, 21844), random sequences to length 12, missing / non-executable command, usage and input errors.",
-        note="Child statuses 126..254 not judged.",
+        note="Child statuses 126..254 not judged. Round 8: -x with -L/-n and a group whose later argument does not fit -s.",
         ref="DESIGN.md section 4 C19"),
     "C20": dict(
         technique="runtime monitoring: recorder argv per invocation vs textual substitution model; option-order matrix for -I/-n/-L",
         level="exploration",
         text="Random line sets and initial-argument templates with 0-3 occurrences of R, six replacement strings in five spellings, empty input, -I with -n 1, and all orderings of all subsets of {-I,-n,-L} (mode of the last option judged with C04's batching model).",
-        note="Lines free of quotes, backslashes and leading blanks (statement's restriction); trailing blanks and bytes that are not valid UTF-8 are judged. Round 7: -I runs under a -s that is 1-8 bytes above what the largest command line needs.",
+        note="Lines free of quotes, backslashes and leading blanks (statement's restriction); trailing blanks and bytes that are not valid UTF-8 are judged. Round 7: -I runs under a -s that is 1-8 bytes above what the largest command line needs. Round 8: -x together with a just-fitting -s.",
         ref="DESIGN.md section 4 C20"),
 }
 
